@@ -318,6 +318,11 @@ class PageRenderer:
                         last_val = last_values.get(col_name)
 
                         if val is None:
+                            # No heading for this level (divider/null). If an
+                            # outer level changed, whatever was in force below
+                            # it belongs to the previous group: forget it.
+                            if force_render:
+                                last_values.pop(col_name, None)
                             continue
 
                         # Check for change
